@@ -279,7 +279,21 @@ def boolop_folded_to_bool(case):
     return any(isinstance(n, ast.BoolOp) for n in ast.walk(tree))
 
 
-PREDICATES = {"boolop_folded_to_bool": boolop_folded_to_bool}
+def singleton_eq(case):
+    """F-C15-08: '== True/False/None' (or !=) reaches singleton_eq_comparison, which turns it into an identity test."""
+    if case.get("layer") != 2 or case["consumer"][1] != "format_code":
+        return False
+    try:
+        tree = ast.parse(case["expr"], mode="eval")
+    except SyntaxError:
+        return False
+    for n in ast.walk(tree):
+        if isinstance(n, ast.Compare) and any(isinstance(o, (ast.Eq, ast.NotEq)) for o in n.ops):
+            return True  # any operand may fold into a singleton constant first
+    return False
+
+
+PREDICATES = {"boolop_folded_to_bool": boolop_folded_to_bool, "singleton_eq": singleton_eq}
 
 
 def evaluate(case):
@@ -392,6 +406,9 @@ def run_shard(spec):
         if boolop_folded_to_bool(case):
             acc.excluded["F-C15-01"] += 1
             case["consumer"] = ["fixes", "remove_redundant_boolop_values"]
+        if singleton_eq(case):
+            acc.excluded["F-C15-08"] += 1
+            case["consumer"] = ["fixes", "remove_dead_ifs"]
         fails, nontrivial, classes = program_case(case)
         acc.case(case, nontrivial, classes, sample=PROGRAMS[case["tmpl"]].format(e=e) + "# via " + case["consumer"][1])
         acc.fails(fails)
